@@ -925,7 +925,5 @@ Definition valid_package (P : decl_package) : Prop :=
   /\ Forall (fun d => is_query_request (df_req d) = true -> exists root, list_root (df_resp d) = Ok root) (all_methods P)
   (* every reference is to a declared schema, every field type is a Field alternative *)
   /\ all_refs_link (im_schemas (compile_image P)) = true
-  /\ wf_env (im_schemas (compile_image P))
-  (* declared schema names are not those of request/response messages *)
-  /\ (forall k, In k (map fst (dp_schemas P)) -> fst k <> dp_pkg P ++ DOT :: SERVICE).
+  /\ wf_env (im_schemas (compile_image P)).
 End Package.
